@@ -101,11 +101,11 @@ theorem lift_inj {n n' : Z3} {o : HOp} (h : lift n o = lift n' o) : n = n' := by
   exact smul_cancel (by decide) (add_left_cancel ht)
 
 /-- Different elements of the list are incongruent modulo `mT`. -/
-theorem lift_eq_of_eqM {m : Nat} {prim : List HOp} (hnd : (prim.map (·.rot)).Nodup) {o o' : HOp}
+theorem lift_eq_of_eqM {m : Nat} {prim : List HOp} (hnd : (prim.map opKey).Nodup) {o o' : HOp}
     (ho : o ∈ prim) (ho' : o' ∈ prim) {n n' : Z3} (hn : n ∈ vecsMod m) (hn' : n' ∈ vecsMod m)
     (h : EqM m (lift n o) (lift n' o')) : lift n o = lift n' o' := by
-  obtain ⟨h1, _, v, hv⟩ := h
-  have hoo : o = o' := List.inj_on_of_nodup_map hnd ho ho' h1
+  obtain ⟨h1, h2, v, hv⟩ := h
+  have hoo : o = o' := List.inj_on_of_nodup_map hnd ho ho' (Prod.ext h1 h2 : opKey o = opKey o')
   subst hoo
   change (o.trans + (12 : Int) • n) - (o.trans + (12 : Int) • n') = (12 * (m : Int)) • v at hv
   have h12 : (12 : Int) • n = (12 : Int) • (n' + (m : Int) • v) := by
@@ -114,7 +114,7 @@ theorem lift_eq_of_eqM {m : Nat} {prim : List HOp} (hnd : (prim.map (·.rot)).No
   have hnn : VEq m n n' := ⟨v, smul_cancel (by decide) h12⟩
   rw [eq_of_veq_reduced hnn ((mem_vecsMod_iff m n).1 hn) ((mem_vecsMod_iff m n').1 hn')]
 
-theorem slotElems_nodup {m : Nat} (hv : (vecsMod m).Nodup) {prim : List HOp} (hnd : (prim.map (·.rot)).Nodup)
+theorem slotElems_nodup {m : Nat} (hv : (vecsMod m).Nodup) {prim : List HOp} (hnd : (prim.map opKey).Nodup)
     (τ : SlotType) : (slotElems m prim τ).Nodup := by
   have hp : prim.Nodup := List.Nodup.of_map _ hnd
   unfold slotElems
@@ -126,7 +126,9 @@ theorem slotElems_nodup {m : Nat} (hv : (vecsMod m).Nodup) {prim : List HOp} (hn
   simp only [Function.onFun, List.disjoint_left, List.mem_map]
   rintro x ⟨n, _, rfl⟩ ⟨n', _, hx⟩
   have hr : (lift n' o').rot = (lift n o).rot := congrArg HOp.rot hx
-  exact hne (List.inj_on_of_nodup_map hnd (List.mem_of_mem_filter ho) (List.mem_of_mem_filter ho') hr.symm)
+  have htr : (lift n' o').tr = (lift n o).tr := congrArg HOp.tr hx
+  exact hne (List.inj_on_of_nodup_map hnd (List.mem_of_mem_filter ho) (List.mem_of_mem_filter ho')
+    (Prod.ext hr.symm htr.symm : opKey o = opKey o'))
 
 theorem typeIs_of_cc (F : Frame) {m : Int} {x y : HOp} (h : CC F m x y) (τ : SlotType) (hx : typeIs τ x = true) :
     typeIs τ y = true := by
@@ -167,7 +169,7 @@ theorem slot_total (F : Frame) {src tgt : List HOp} (h1 : ∀ o ∈ src, ∃ o0 
   exact typeIs_of_cc F h1' τ ht
 
 /-- Two elements with the same image are equal. -/
-theorem slot_inj (F : Frame) {src : List HOp} (hnd : (src.map (·.rot)).Nodup) {m : Nat} (τ : SlotType) :
+theorem slot_inj (F : Frame) {src : List HOp} (hnd : (src.map opKey).Nodup) {m : Nat} (τ : SlotType) :
     ∀ x ∈ slotElems m src τ, ∀ x' ∈ slotElems m src τ, ∀ y, CC F m x y → CC F m x' y → x = x' := by
   intro x hx x' hx' y hxy hx'y
   obtain ⟨o, ho, _, n, hn, rfl⟩ := mem_slotElems.1 hx
@@ -276,7 +278,7 @@ theorem countP_le_of_rel {α : Type} [Inhabited α] {A B : List α} (pA pB : α 
 /-! ### invariance of the count -/
 
 theorem countSpec_le (s : Spec) (hv : (vecsMod s.m).Nodup) (F : Frame) {src tgt : List HOp}
-    (hnd : (src.map (·.rot)).Nodup) (h1 : ∀ o ∈ src, ∃ o0 ∈ tgt, CC F 1 o o0) : countSpec s src ≤ countSpec s tgt := by
+    (hnd : (src.map opKey).Nodup) (h1 : ∀ o ∈ src, ∃ o0 ∈ tgt, CC F 1 o o0) : countSpec s src ≤ countSpec s tgt := by
   unfold countSpec
   refine countP_le_of_rel (sat s) (sat s) (List.Forall₂ (CC F s.m)) ?_ ?_ ?_ ?_
   · refine tuples_nodup ?_
@@ -292,7 +294,7 @@ theorem countSpec_le (s : Spec) (hv : (vecsMod s.m).Nodup) (F : Frame) {src tgt 
 /-- **Invariance.**  Affinely conjugate lists of coset representatives (pairwise different linear
 parts) have the same number of solutions of every system. -/
 theorem countSpec_eq_of_affConj (s : Spec) (hv : (vecsMod s.m).Nodup) {src tgt : List HOp}
-    (hs : (src.map (·.rot)).Nodup) (ht : (tgt.map (·.rot)).Nodup) (h : AffConj src tgt) :
+    (hs : (src.map opKey).Nodup) (ht : (tgt.map opKey).Nodup) (h : AffConj src tgt) :
     countSpec s src = countSpec s tgt := by
   obtain ⟨_, c, hd, hpos, h12, h1, h2⟩ := h
   let F := frameOf c hd hpos h12
@@ -310,6 +312,20 @@ theorem rotsDistinct_iff (l : List HOp) : rotsDistinct l = true ↔ (l.map (·.r
   | cons o rest ih =>
     simp only [rotsDistinct, Bool.and_eq_true, List.all_eq_true, Bool.not_eq_eq_eq_not, Bool.not_true,
       beq_eq_false_iff_ne, ne_eq, ih, List.map_cons, List.nodup_cons, List.mem_map, not_exists, not_and]
+
+theorem keysDistinct_iff (l : List HOp) : keysDistinct l = true ↔ (l.map opKey).Nodup := by
+  induction l with
+  | nil => simp [keysDistinct]
+  | cons o rest ih =>
+    simp only [keysDistinct, Bool.and_eq_true, List.all_eq_true, Bool.not_eq_eq_eq_not, Bool.not_true,
+      Bool.and_eq_false_imp, beq_iff_eq, beq_eq_false_iff_ne, ne_eq, ih, List.map_cons, List.nodup_cons, List.mem_map,
+      not_exists, not_and, opKey, Prod.mk.injEq]
+
+/-- Pairwise different linear parts are in particular pairwise different keys. -/
+theorem keyNodup_of_rotNodup {l : List HOp} (h : (l.map (·.rot)).Nodup) : (l.map opKey).Nodup := by
+  have : l.map (·.rot) = (l.map opKey).map Prod.fst := by simp [opKey, Function.comp_def]
+  rw [this] at h
+  exact List.Nodup.of_map _ h
 
 theorem vecsMod_nodup_4 : (vecsMod 4).Nodup := by decide
 
